@@ -30,6 +30,7 @@ from concurrent.futures import ProcessPoolExecutor
 import numpy
 
 from . import _matrix_frames as mf
+from ._matrix_report import emit_round_robin
 
 RTOL, ATOL = 1e-9, 1e-12  # products of <= 4 doubles in a different association order: ~1e-16 rel.
 MAX_WITNESS_PER_CLASS = 5
@@ -352,7 +353,11 @@ def _expected_terms(formula_text, generated_terms, intercept):
     from formulaic import Formula
 
     terms = []
-    for t in Formula(formula_text):
+    try:
+        parsed = list(Formula(formula_text))
+    except Exception:  # a parser problem is C01/C14's subject; the case is skipped (and counted)
+        return None
+    for t in parsed:
         scale, fs = 1.0, []
         for f in t.factors:
             if f.eval_method.value == "literal":
@@ -618,7 +623,7 @@ def _run_e2e(ctx):
               f"{SCALES}; rank on/off; outputs rotate in the quick tier, all three in the thorough tier (single-term cases)",
     ) as b:
         totals, skipped = {}, 0
-        reported, collected = {}, []
+        collected = []
         with ProcessPoolExecutor(16) as ex:
             for n_eval, keys, samples, failures, per_class, sk in ex.map(_e2e_task, tasks):
                 b.add_counts(n_eval, keys, samples)
@@ -628,11 +633,7 @@ def _run_e2e(ctx):
                 collected.extend(failures)
         # smallest witnesses first
         collected.sort(key=lambda f: (len(f[1]["formula"]), len(f[1]["code"]), f[1]["formula"], f[1]["output"]))
-        for clause, witness, detail in collected:
-            k = (clause, witness["cls"])
-            reported[k] = reported.get(k, 0) + 1
-            if reported[k] <= MAX_WITNESS_PER_CLASS:
-                b.fail(clause=clause, witness=witness, detail=detail)
+        emit_round_robin(b, collected, MAX_WITNESS_PER_CLASS)
         for (clause, cls), n in sorted(totals.items()):
             ctx.notes.append(f"{clause} cls={cls}: {n} failing cases in total")
         if skipped:
@@ -642,6 +643,9 @@ def _run_e2e(ctx):
 def run_bounded(ctx):
     _run_kron(ctx)
     _run_e2e(ctx)
+    if not ctx.explanation:  # the proofs module normally sets this; keeps the evidence schema-valid on its own
+        ctx.explanation = ("bounded stand-in: the real _get_columns_for_term on symbolic (sympy) columns over all shapes k<=4 x "
+                           "widths<=3, and model_matrix end-to-end with every column recomputed from the raw data through its label")
     ctx.assume(
         "A-float: floating point treated as real arithmetic up to rtol 1e-9 (a product of <= 4 doubles and a literal, "
         "associated differently)",
